@@ -1,5 +1,6 @@
 import GoaVerif.Prelude.Hex
 import GoaVerif.Model.Mux
+import GoaVerif.Model.FullPaths
 /-! Line-protocol front end for the C16 model.
 
 `esc <hex>` / `unesc <hex>` / `setpath <hex>`: the byte-level functions.
@@ -48,6 +49,12 @@ def anyMethod (routes : List Route) (path : Bytes) : Bool :=
   | _ => false
 
 def handle : List String → Option String
+  -- `fullpaths <hex api base> <hex route> <hex service base>*` → the patterns the route is mounted under
+  | "fullpaths" :: a :: r :: bs => do
+    let api ← hexToString a
+    let route ← hexToString r
+    let bases ← bs.mapM hexToString
+    some (" ".intercalate ("paths" :: (GoaVerif.FullPaths.routePaths route (GoaVerif.FullPaths.servicePaths api bases)).map encString))
   | ["esc", h] => do
     let b ← hexToBytes h
     some (encBytes (pathEscape b))
